@@ -363,7 +363,9 @@ func (w *binaryWriter) writeLob(code byte, val []byte) error {
 	if err := w.writeTag(code, vlength); err != nil {
 		return err
 	}
-	return w.write(val)
+	// What is written may sit in a buffer until Finish: keep a copy, the caller is
+	// free to reuse its slice once this call returns.
+	return w.write(append([]byte(nil), val...))
 }
 
 // BeginList begins writing a list.
